@@ -42,8 +42,18 @@ class KeywordSearches:
         """
         invert: bool = terms.inverted
         keyword: PathSearchKeywords = terms.keyword
-        parameters: List[str] = terms.parameters
         nc_matches: Generator[NodeCoords, None, None]
+
+        # The parameter text is split on first use; an unmatched quote in it
+        # (the path parser accepts an escaped one, as in [max(\')]) is an
+        # error of the YAML Path, not of the caller
+        try:
+            parameters: List[str] = terms.parameters
+        except ValueError as ex:
+            raise YAMLPathException(
+                "Invalid parameters to the {} search keyword:  {}"
+                .format(keyword, ex),
+                str(yaml_path)) from ex
 
         # A NodeCoords which still wraps another (an element of a slice of a
         # slice) is searched by the data it wraps
